@@ -487,5 +487,5 @@ func TestC16(t *testing.T) {
 		"keys picked / omitted are drawn from the operand's own keys (picking a missing key is misconfiguration)")
 	defer h.Finish()
 	maxOps := h.N(14, 30)
-	hh.Sub(h, "histories", h.N(6000, 30000), func(rt *rapid.T) c16Case { return genC16(rt, maxOps) }, propC16)
+	hh.Sub(h, "histories", h.N(6000, 15000), func(rt *rapid.T) c16Case { return genC16(rt, maxOps) }, propC16)
 }
